@@ -154,6 +154,68 @@ theorem endLiquidation_ok {c : RCtx} {stack : Nat} {o : EndLiqOut} (h : endLiqui
     by simpa using chk_ok hs, ⟨ps, hps, hend⟩, rfl⟩
   unfold inRecv; exact r2
 
+theorem delevShape_ok {tx : List TOp} {cur : Nat} (h : delevShape tx cur = .ok ()) :
+    ∃ t0 rest, tx = t0 :: rest ∧ isStartDelev t0 = true ∧ rest.any isStartDelev = false ∧
+      ((tx.getLast?).map isEndDelev).getD false = true ∧ tx.all delevAllowed = true ∧ cur < tx.length - 1 := by
+  unfold delevShape at h
+  cases tx with
+  | nil => cases h
+  | cons t0 rest =>
+    simp only at h
+    split at h; · cases h
+    rename_i h1
+    split at h; · cases h
+    rename_i h2
+    split at h; · cases h
+    rename_i h3
+    split at h; · cases h
+    rename_i h4
+    split at h
+    · rename_i h5
+      refine ⟨t0, rest, rfl, by simpa using h1, by simpa using h2, by simpa using h3, by simpa using h4, h5⟩
+    · cases h
+
+/-- a successful forced-deleverage start: signed by the group's risk admin, on the account's own record and group -/
+theorem startDeleverage_ok {c : RCtx} {shape : Res Unit} {o : StartLiqOut} (h : startDeleverage c shape = .ok o) :
+    (c.recordOk = true ∧ c.a.group = c.g.key ∧ c.g.riskAdmin = c.receiver) ∧ inRecv c.a = false ∧ shape = .ok () ∧
+    (∃ ps, c.portfolio = .ok ps ∧ Risk.startReceivership ps true = .ok o.cache) ∧
+    o.flags = (c.a.flags ||| ACCOUNT_IN_DELEVERAGE.toNat) ||| ACCOUNT_IN_RECEIVERSHIP.toNat ∧ o.receiver = c.receiver := by
+  unfold startDeleverage at h
+  obtain ⟨_, hc, h⟩ := Res.bind_ok h
+  obtain ⟨ps, hps, h⟩ := Res.bind_ok h
+  obtain ⟨cache, hcache, h⟩ := Res.bind_ok h
+  obtain ⟨u, hsh, h⟩ := Res.bind_ok h
+  injection h with h
+  subst h
+  have hc' := runChecks_ok hc
+  simp only [Gen.Acc.checks, List.forall_mem_cons, List.not_mem_nil, false_imp_iff, implies_true, and_true] at hc'
+  simp [evalChk, RCtx.envD, flBit, flagsOf] at hc'
+  obtain ⟨r1, rg, r2, _, _, ra⟩ := hc'
+  refine ⟨⟨by cases hro : c.recordOk <;> simp [hro] at r1 ⊢, rg, ra⟩, ?_, ?_, ⟨ps, hps, hcache⟩, rfl, rfl⟩
+  · unfold inRecv; exact r2
+  · cases shape with
+    | ok u' => rfl
+    | error e => cases hsh
+
+/-- a successful forced-deleverage end -/
+theorem endDeleverage_ok {c : RCtx} {stack : Nat} {o : EndLiqOut} (h : endDeleverage c stack = .ok o) :
+    (c.recordOk = true ∧ c.a.group = c.g.key ∧ c.g.riskAdmin = c.receiver) ∧ inRecv c.a = true ∧ c.a.recReceiver = c.receiver ∧ stack = 1 ∧
+    (∃ ps, c.portfolio = .ok ps ∧ Risk.endDeleverage c.a.recCache ps = .ok (o.seized, o.repaid)) ∧
+    o.flags = (c.a.flags &&& (Nat.xor ACCOUNT_IN_DELEVERAGE.toNat (2 ^ 64 - 1))) &&& (Nat.xor ACCOUNT_IN_RECEIVERSHIP.toNat (2 ^ 64 - 1)) := by
+  unfold endDeleverage at h
+  obtain ⟨_, hc, h⟩ := Res.bind_ok h
+  obtain ⟨_, hs, h⟩ := Res.bind_ok h
+  obtain ⟨ps, hps, h⟩ := Res.bind_ok h
+  obtain ⟨⟨sz, rp⟩, hend, h⟩ := Res.bind_ok h
+  injection h with h
+  subst h
+  have hc' := runChecks_ok hc
+  simp only [Gen.Acc.checks, List.forall_mem_cons, List.not_mem_nil, false_imp_iff, implies_true, and_true] at hc'
+  simp [evalChk, RCtx.envD, flBit, flagsOf] at hc'
+  obtain ⟨r1, rg, r2, _, _, rr, ra⟩ := hc'
+  refine ⟨⟨by cases hro : c.recordOk <;> simp [hro] at r1 ⊢, rg, ra⟩, ?_, rr, by simpa using chk_ok hs, ⟨ps, hps, hend⟩, rfl⟩
+  unfold inRecv; exact r2
+
 theorem recv_clear (flags : Nat) : hasFlag (flags &&& (Nat.xor ACCOUNT_IN_RECEIVERSHIP.toNat (2 ^ 64 - 1))) ACCOUNT_IN_RECEIVERSHIP = false := by
   have e : ACCOUNT_IN_RECEIVERSHIP.toNat = 2 ^ 4 := by decide
   unfold hasFlag
@@ -170,9 +232,19 @@ structure Bracket (tx : List TOp) (k : Nat) : Prop where
   allowed : tx.all liqAllowed = true
   single : (tx.drop 1).any isStartLiq = false
 
+/-- the transaction is a forced-deleverage bracket opened for account `k` -/
+structure BracketD (tx : List TOp) (k : Nat) : Prop where
+  first : ∃ r ok, tx[0]? = some (.startDelev k r ok)
+  last : ((tx.getLast?).map isEndDelev).getD false = true
+  allowed : tx.all delevAllowed = true
+  single : (tx.drop 1).any isStartDelev = false
+
+/-- a bracket of either kind -/
+def AnyBracket (tx : List TOp) (k : Nat) : Prop := Bracket tx k ∨ BracketD tx k
+
 /-- every account in receivership at position `i` is THE account this transaction's bracket was opened for, and the end is still to come -/
 def RecvInv (tx : List TOp) (i : Nat) (w : WState) : Prop :=
-  ∀ (k : Nat) (a : AcctV), w.accts[k]? = some a → inRecv a = true → i < tx.length ∧ Bracket tx k
+  ∀ (k : Nat) (a : AcctV), w.accts[k]? = some a → inRecv a = true → i < tx.length ∧ AnyBracket tx k
 
 theorem not_last_of_not_end {tx : List TOp} {i : Nat} {t : TOp} (ht : tx[i]? = some t) (hne : isEndLiq t = false)
     (hl : ((tx.getLast?).map isEndLiq).getD false = true) : i + 1 < tx.length := by
@@ -197,6 +269,53 @@ theorem bracket_unique {tx : List TOp} {k j : Nat} (h1 : Bracket tx k) (h2 : Bra
   injection e2 with e2
   injection e2 with e2 _ _
 
+theorem not_last_of_not_endD {tx : List TOp} {i : Nat} {t : TOp} (ht : tx[i]? = some t) (hne : isEndDelev t = false)
+    (hl : ((tx.getLast?).map isEndDelev).getD false = true) : i + 1 < tx.length := by
+  have hlt : i < tx.length := by
+    rcases Nat.lt_or_ge i tx.length with h | h
+    · exact h
+    · rw [List.getElem?_eq_none h] at ht; cases ht
+  rcases Nat.lt_or_ge (i + 1) tx.length with h | h
+  · exact h
+  · have e : tx.length - 1 = i := by omega
+    rw [List.getLast?_eq_getElem?, e, ht] at hl
+    simp [hne] at hl
+
+theorem allowed_atD {tx : List TOp} {i : Nat} {t : TOp} (ht : tx[i]? = some t) (ha : tx.all delevAllowed = true) : delevAllowed t = true := by
+  rw [List.all_eq_true] at ha
+  exact ha t (List.mem_of_getElem? ht)
+
+theorem anyBracket_unique {tx : List TOp} {k j : Nat} (h1 : AnyBracket tx k) (h2 : AnyBracket tx j) : k = j := by
+  rcases h1 with h1 | h1 <;> rcases h2 with h2 | h2
+  · exact bracket_unique h1 h2
+  · obtain ⟨r1, o1, e1⟩ := h1.first
+    obtain ⟨r2, o2, e2⟩ := h2.first
+    rw [e1] at e2
+    injection e2 with e2
+    cases e2
+  · obtain ⟨r1, o1, e1⟩ := h1.first
+    obtain ⟨r2, o2, e2⟩ := h2.first
+    rw [e1] at e2
+    injection e2 with e2
+    cases e2
+  · obtain ⟨r1, o1, e1⟩ := h1.first
+    obtain ⟨r2, o2, e2⟩ := h2.first
+    rw [e1] at e2
+    injection e2 with e2
+    injection e2 with e2 _ _
+
+theorem anyBracket_next {tx : List TOp} {i k : Nat} {t : TOp} (ht : tx[i]? = some t) (h1 : isEndLiq t = false) (h2 : isEndDelev t = false)
+    (hb : AnyBracket tx k) : i + 1 < tx.length := by
+  rcases hb with hb | hb
+  · exact not_last_of_not_end ht h1 hb.last
+  · exact not_last_of_not_endD ht h2 hb.last
+
+theorem anyBracket_allowed {tx : List TOp} {i k : Nat} {t : TOp} (ht : tx[i]? = some t) (hb : AnyBracket tx k) :
+    liqAllowed t = true ∨ delevAllowed t = true := by
+  rcases hb with hb | hb
+  · exact Or.inl (allowed_at ht hb.allowed)
+  · exact Or.inr (allowed_atD ht hb.allowed)
+
 theorem stepIn_recv {tx : List TOp} {i : Nat} {t : TOp} {w w' : WState} (ht : tx[i]? = some t)
     (h : w.stepIn tx i t = some w') (hp : RecvInv tx i w) : RecvInv tx (i + 1) w' := by
   cases t with
@@ -207,7 +326,7 @@ theorem stepIn_recv {tx : List TOp} {i : Nat} {t : TOp} {w w' : WState} (ht : tx
     intro k a' hk hf
     obtain ⟨y, hy, hfy⟩ := step_noNewRecv w op k a' hk hf
     obtain ⟨_, hb⟩ := hp k y hy hfy
-    exact ⟨not_last_of_not_end ht rfl hb.last, hb⟩
+    exact ⟨anyBracket_next ht rfl rfl hb, hb⟩
   | startFlash ai signer endIdx =>
     simp only [WState.stepIn] at h
     split at h
@@ -228,8 +347,8 @@ theorem stepIn_recv {tx : List TOp} {i : Nat} {t : TOp} {w w' : WState} (ht : tx
             simp [b] at hx
             exact hx) k a' hk hfl
         obtain ⟨_, hb⟩ := hp k y hy hfy
-        have := allowed_at ht hb.allowed
-        simp [liqAllowed] at this
+        have := anyBracket_allowed ht hb
+        simp [liqAllowed, delevAllowed] at this
       · cases h
     · cases h
   | endFlash ai signer =>
@@ -259,8 +378,8 @@ theorem stepIn_recv {tx : List TOp} {i : Nat} {t : TOp} {w w' : WState} (ht : tx
             simp at hx
             exact hx.1) k a' hk hfl
         obtain ⟨_, hb⟩ := hp k y hy hfy
-        have := allowed_at ht hb.allowed
-        simp [liqAllowed] at this
+        have := anyBracket_allowed ht hb
+        simp [liqAllowed, delevAllowed] at this
       · cases h
     · cases h
   | startLiq ai receiver recordOk =>
@@ -294,7 +413,7 @@ theorem stepIn_recv {tx : List TOp} {i : Nat} {t : TOp} {w w' : WState} (ht : tx
         split at hk
         · rename_i hki
           subst hki
-          exact hbr
+          exact Or.inl hbr
         · exact (hp k a' hk hfl).2
       · cases h
     · cases h
@@ -321,7 +440,67 @@ theorem stepIn_recv {tx : List TOp} {i : Nat} {t : TOp} {w w' : WState} (ht : tx
           · cases hk
         · rename_i hki
           have hbk := (hp k a' hk hfl).2
-          exact hki (bracket_unique hba hbk)
+          exact hki (anyBracket_unique hba hbk)
+      · cases h
+    · cases h
+  | startDelev ai signer recordOk =>
+    simp only [WState.stepIn] at h
+    split at h
+    · rename_i a ha
+      split at h
+      · rename_i o ho
+        injection h with h; subst h
+        obtain ⟨_, _, hshape, _, _, _⟩ := startDeleverage_ok ho
+        obtain ⟨t0, rest, etx, hs0, hsingle, hlast, hall, hcur⟩ := delevShape_ok hshape
+        have hi0 : i = 0 := by
+          rcases Nat.eq_zero_or_pos i with h0 | h0
+          · exact h0
+          · exfalso
+            rw [etx] at ht
+            have : rest[i - 1]? = some (.startDelev ai signer recordOk) := by
+              have e : i = (i - 1) + 1 := by omega
+              rw [e, List.getElem?_cons_succ] at ht
+              exact ht
+            have hm := List.mem_of_getElem? this
+            have : rest.any isStartDelev = true := List.any_eq_true.mpr ⟨_, hm, rfl⟩
+            rw [hsingle] at this; cases this
+        have hbr : BracketD tx ai := by
+          refine ⟨⟨signer, recordOk, by rw [← hi0]; exact ht⟩, hlast, hall, ?_⟩
+          rw [etx]; simpa using hsingle
+        intro k a' hk hfl
+        refine ⟨by omega, ?_⟩
+        rw [List.getElem?_set] at hk
+        split at hk
+        · rename_i hki
+          subst hki
+          exact Or.inr hbr
+        · exact (hp k a' hk hfl).2
+      · cases h
+    · cases h
+  | endDelev ai signer recordOk =>
+    simp only [WState.stepIn] at h
+    split at h
+    · rename_i a ha
+      split at h
+      · rename_i o ho
+        injection h with h; subst h
+        obtain ⟨_, hrecv, _, _, _, efl⟩ := endDeleverage_ok ho
+        have hba := (hp ai a ha hrecv).2
+        intro k a' hk hfl
+        exfalso
+        rw [List.getElem?_set] at hk
+        split at hk
+        · rename_i hki
+          subst hki
+          split at hk
+          · injection hk with hk; subst hk
+            unfold inRecv at hfl
+            simp only [efl] at hfl
+            rw [recv_clear] at hfl; cases hfl
+          · cases hk
+        · rename_i hki
+          have hbk := (hp k a' hk hfl).2
+          exact hki (anyBracket_unique hba hbk)
       · cases h
     · cases h
 
@@ -534,7 +713,53 @@ theorem stepIn_cache {tx : List TOp} {i : Nat} {t : TOp} {w w' : WState} {cache 
         have hbk := (hr k a' hk hfl).2
         have hk' := hk
         rw [List.getElem?_set] at hk'
-        have e := bracket_unique hba hbk
+        have e := anyBracket_unique hba hbk
+        subst e
+        simp only [if_true] at hk'
+        split at hk'
+        · injection hk' with hk'; subst hk'
+          unfold inRecv at hfl
+          simp only [efl] at hfl
+          rw [recv_clear] at hfl; cases hfl
+        · cases hk'
+      · cases h
+    · cases h
+  | startDelev ai signer recordOk =>
+    -- a start can only be the first instruction
+    exfalso
+    simp only [WState.stepIn] at h
+    split at h
+    · rename_i a ha
+      split at h
+      · rename_i o ho
+        obtain ⟨_, _, hshape, _, _, _⟩ := startDeleverage_ok ho
+        obtain ⟨t0, rest, etx, hs0, hsingle, _, _, _⟩ := delevShape_ok hshape
+        rw [etx] at ht
+        have : rest[i - 1]? = some (.startDelev ai signer recordOk) := by
+          have e : i = (i - 1) + 1 := by omega
+          rw [e, List.getElem?_cons_succ] at ht
+          exact ht
+        have hm := List.mem_of_getElem? this
+        have : rest.any isStartDelev = true := List.any_eq_true.mpr ⟨_, hm, rfl⟩
+        rw [hsingle] at this; cases this
+      · cases h
+    · cases h
+  | endDelev ai signer recordOk =>
+    have hr := stepIn_recv ht h hp
+    simp only [WState.stepIn] at h
+    split at h
+    · rename_i a ha
+      split at h
+      · rename_i o ho
+        injection h with h; subst h
+        obtain ⟨_, hrecv, _, _, _, efl⟩ := endDeleverage_ok ho
+        have hba := (hp ai a ha hrecv).2
+        intro k a' hk hfl
+        exfalso
+        have hbk := (hr k a' hk hfl).2
+        have hk' := hk
+        rw [List.getElem?_set] at hk'
+        have e := anyBracket_unique hba hbk
         subst e
         simp only [if_true] at hk'
         split at hk'
@@ -650,14 +875,18 @@ theorem tx_liquidation_closed {w w' : WState} {tx : List TOp} (h : w.runTx tx = 
                   obtain ⟨_, hrecv, hrr, _, _, ⟨psl, hpsl, hendl⟩, _⟩ := endLiquidation_ok hoe
                   obtain ⟨hcache', hrecv'⟩ := hcl aj al hal hrecv
                   have hb1 := (hrl aj al hal hrecv).2
-                  have hb0 : Bracket tx a0 := by
-                    obtain ⟨r', ok', e'⟩ := hb1.first
-                    have : tx[0]? = some (.startLiq a0 r ok) := rfl
-                    rw [this] at e'
-                    injection e' with e'
-                    injection e' with e1 _ _
-                    rw [e1]; exact hb1
-                  have eaj : aj = a0 := bracket_unique hb1 hb0
+                  have eaj : aj = a0 := by
+                    have h0' : tx[0]? = some (.startLiq a0 r ok) := rfl
+                    rcases hb1 with hb1 | hb1
+                    · obtain ⟨r', ok', e'⟩ := hb1.first
+                      rw [h0'] at e'
+                      injection e' with e'
+                      injection e' with e1 _ _
+                      exact e1.symm
+                    · obtain ⟨r', ok', e'⟩ := hb1.first
+                      rw [h0'] at e'
+                      injection e' with e'
+                      cases e'
                   subst eaj
                   simp only [WState.rctx] at hrr hendl hpsl
                   rw [hcache'] at hendl
@@ -669,8 +898,111 @@ theorem tx_liquidation_closed {w w' : WState} {tx : List TOp} (h : w.runTx tx = 
             | startFlash _ _ _ => cases hend
             | endFlash _ _ => cases hend
             | startLiq _ _ _ => cases hend
+            | startDelev _ _ _ => cases hend
+            | endDelev _ _ _ => cases hend
         · cases h1
       · cases h1
     · cases hrun
+
+/-- **the forced-deleverage bracket of a committed transaction**: if a committed transaction (started with nobody in receivership)
+    opens with `start_deleverage` of account `a0` signed by `r`, then `r` is the group's risk admin and the account is of this group,
+    the transaction's LAST instruction is an `end_deleverage` of the SAME account signed by `r`, and that end compared the
+    portfolio as the bracket left it with exactly the snapshot the start took -/
+theorem tx_deleverage_closed {w w' : WState} {tx : List TOp} (h : w.runTx tx = some w')
+    (h0 : ∀ (k : Nat) (a : AcctV), w.accts[k]? = some a → inRecv a = false)
+    {a0 r : Nat} {ok : Bool} (hs : tx[0]? = some (.startDelev a0 r ok)) :
+    ∃ (a : AcctV) (ps0 : List Risk.Pos) (cache : Risk.PreCache),
+      w.accts[a0]? = some a ∧ w.g.riskAdmin = r ∧ a.group = w.g.key ∧
+      (w.rctx a ok r true 0).portfolio = .ok ps0 ∧ Risk.startReceivership ps0 true = .ok cache ∧
+      ∃ (signer : Nat) (rok : Bool), tx[tx.length - 1]? = some (.endDelev a0 signer rok) ∧ signer = r ∧
+        ∃ (wl : WState) (al : AcctV) (psl : List Risk.Pos) (seized repaid : Int), wl.accts[a0]? = some al ∧
+          (wl.rctx al rok signer true 0).portfolio = .ok psl ∧ Risk.endDeleverage cache psl = .ok (seized, repaid) := by
+  -- the first step
+  cases tx with
+  | nil => simp at hs
+  | cons t0 rest =>
+    have ht0 : t0 = .startDelev a0 r ok := by simpa using hs
+    subst ht0
+    have hrun := h
+    simp only [WState.runTx, WState.runFrom] at hrun
+    split at hrun
+    · rename_i w1 h1
+      have hp0 : RecvInv (TOp.startDelev a0 r ok :: rest) 0 w := by
+        intro k a hk hf
+        rw [h0 k a hk] at hf; cases hf
+      have hp1 := stepIn_recv (tx := TOp.startDelev a0 r ok :: rest) (i := 0) rfl h1 hp0
+      have h1' := h1
+      simp only [WState.stepIn] at h1
+      split at h1
+      · rename_i a ha
+        split at h1
+        · rename_i o ho
+          injection h1 with h1; subst h1
+          obtain ⟨⟨_, hgrp, hadm⟩, _, hshape, ⟨ps0, hps0, hcache⟩, efl, erecv⟩ := startDeleverage_ok ho
+          obtain ⟨_, _, _, _, _, hlast, _, hcur⟩ := delevShape_ok hshape
+          -- the snapshot is carried by the only account in receivership
+          have hc1 : CacheInv o.cache r { w with accts := w.accts.set a0 { a with flags := o.flags, recReceiver := o.receiver, recCache := o.cache } } := by
+            intro k a' hk hfl
+            rw [List.getElem?_set] at hk
+            split at hk
+            · split at hk
+              · injection hk with hk; subst hk
+                exact ⟨rfl, erecv⟩
+              · cases hk
+            · rw [h0 k a' hk] at hfl; cases hfl
+          -- the last instruction
+          set tx := TOp.startDelev a0 r ok :: rest with etx
+          have hlen : 1 ≤ tx.length - 1 := by simp only [etx, List.length_cons] at hcur ⊢; omega
+          cases hl : tx[tx.length - 1]? with
+          | none =>
+            exfalso
+            have : tx.length - 1 < tx.length := by simp only [etx, List.length_cons]; omega
+            rw [List.getElem?_eq_none_iff] at hl
+            omega
+          | some tl =>
+            have hend : isEndDelev tl = true := by
+              rw [List.getLast?_eq_getElem?, hl] at hlast
+              simpa using hlast
+            obtain ⟨wl, wl', hrl, hcl, hsl⟩ := runFrom_at_recv tx o.cache r rest 1 _ w' (Nat.le_refl 1) (by simp [etx]) hrun hp1 hc1
+              (tx.length - 1) tl hlen hl
+            cases tl with
+            | endDelev aj signer rok =>
+              simp only [WState.stepIn] at hsl
+              split at hsl
+              · rename_i al hal
+                split at hsl
+                · rename_i oe hoe
+                  obtain ⟨_, hrecv, hrr, _, ⟨psl, hpsl, hendl⟩, _⟩ := endDeleverage_ok hoe
+                  obtain ⟨hcache', hrecv'⟩ := hcl aj al hal hrecv
+                  have hb1 := (hrl aj al hal hrecv).2
+                  have eaj : aj = a0 := by
+                    have h0' : tx[0]? = some (.startDelev a0 r ok) := rfl
+                    rcases hb1 with hb1 | hb1
+                    · obtain ⟨r', ok', e'⟩ := hb1.first
+                      rw [h0'] at e'
+                      injection e' with e'
+                      cases e'
+                    · obtain ⟨r', ok', e'⟩ := hb1.first
+                      rw [h0'] at e'
+                      injection e' with e'
+                      injection e' with e1 _ _
+                      exact e1.symm
+                  subst eaj
+                  simp only [WState.rctx] at hrr hendl hpsl
+                  rw [hcache'] at hendl
+                  refine ⟨a, ps0, o.cache, ha, hadm, hgrp, hps0, hcache, signer, rok, rfl, ?_, wl, al, psl, oe.seized, oe.repaid, hal, hpsl, hendl⟩
+                  rw [← hrr, hrecv']
+                · cases hsl
+              · cases hsl
+            | ix op => cases hend
+            | startFlash _ _ _ => cases hend
+            | endFlash _ _ => cases hend
+            | startLiq _ _ _ => cases hend
+            | endLiq _ _ _ _ _ => cases hend
+            | startDelev _ _ _ => cases hend
+        · cases h1
+      · cases h1
+    · cases hrun
+
 
 end Mfi.World
